@@ -7,13 +7,22 @@ to the model), `local_clifford_ops` (all 16 blocks, every run), `lc_graph_operat
 `converter_gate_list`/`lc_check` on graph and adjacency-matrix inputs are run on the real implementation and on the Lean
 model (`graph.lc`, `lc.system`, `lc.equiv`, `lc.ops`, `lc.seq`, `lc.find`, `lc.check`) and compared.
 
+Two versions of `is_lc_equivalent` are modelled: the one in the repository up to 70adac4 (`isLcEquivalent`: one linear system for
+the whole graph; known finding D14) and the repaired one (handoff/repairs/d14: `isLcEquivalentR`: components compared, then the
+unchanged algorithm — now `_is_lc_equivalent_component`, still `isLcEquivalent` in the model — on every induced pair, blocks
+assembled).  `repaired()` probes the implementation once per process on two disjoint edges and selects the model function
+(`repaired=1` on the driver lines); with the repaired code `_connected_components` is compared as well (`lc.components`, and with
+the definition), the random draws are recorded per call of `_random_checker`, and *every* false `no` is a fresh violation — the
+D14 key is only used while the defect reproduces.
+
 Direct oracle (independent of graphiq and, except for the orbit table, of the model):
   * local complementation toggles exactly the pairs of distinct neighbours (numpy, by definition) and is an involution;
   * `yes` answers: the two graphs are in the same LC orbit (orbit table computed by the driver by BFS over the verified
     `localComp`, all graphs n <= 6); `Q` satisfies S^T Q^T P S' = 0 (matrix identity evaluated in numpy) with invertible
     blocks; the returned gates, applied to the graph state of A by the *verified tableau model*, give exactly the graph
     state of B (signs included); the returned vertex sequence, applied by definition, maps A to B;
-  * `no` answers: the graphs are in different orbits (a false `no` in the region of known finding D14 is keyed as such);
+  * `no` answers: the graphs are in different orbits (a false `no` in the region of known finding D14 — whole-graph solution
+    dimension >= 5, unrepaired code only — is keyed as such);
   * `lc_check` on tableaux: no exception on stabilizer states (regression inputs of the repaired D40: |0>, |0>|+>, |0> x Bell compared
     with themselves); the total gate list, run by the verified tableau model on state 1, gives state 2; a false `no` is keyed by the
     solution dimension on the graphs state_to_graph chose (>= 5: D14 — e.g. every state with an unentangled qubit, n >= 2).
@@ -28,7 +37,12 @@ LEVEL = "proof"
 TRUSTED_BASE = [
     "Lean 4.33 kernel",
     "hand-written model GraphiqModel/Model/{GraphOps,LC}.lean tied to lc_equivalence_check.py / linalg.py / graph/state.py / "
-    "local_cliff_equi_check.py by this correspondence run (differential testing; exhaustive for all ordered pairs n<=4, n<=5 in thorough)",
+    "local_cliff_equi_check.py by this correspondence run (differential testing; exhaustive for all ordered pairs n<=4, n<=5 in thorough); "
+    "which of the two modelled versions of is_lc_equivalent (unrepaired: isLcEquivalent; repaired per component, D14: isLcEquivalentR) "
+    "the implementation is compared with is decided by probing the implementation on 2K2",
+    "for the repaired function only: completeness of the pair-sum shortcut on CONNECTED graphs (Van den Nest-Dehaene-De Moor, PRA 70, 034302) is a "
+    "stated hypothesis of decides_lc_equivalence_repaired_partial (shortcut_complete_on_connected_statement), not a theorem; it is tested "
+    "(every false no of the implementation is a violation of the direct oracle; handoff/repairs/d14/validate.py: exhaustive for connected n<=6)",
     "np.linalg.inv on the unit-triangular 0/1 matrices that occur is exact (the model inverts over GF(2) and checks the product)",
     "_phase_correction is modelled at specification level (unique set of Z gates fixing the signs); canonical_form itself belongs to C05",
     "tensor-product lifting of the tableau semantics (C07) used to interpret the returned gates",
@@ -47,15 +61,64 @@ FUEL = 400
 
 # ---------------------------------------------------------------------------------------------------- implementation calls
 class RandintRecorder:
+    """records the values of np.random.randint; every np.random.seed starts a new segment (one per call of _random_checker)"""
+
     def __init__(self):
         self.real = np.random.randint
+        self.real_seed = np.random.seed
         self.vals = []
+        self.segments = []
 
     def __call__(self, *a, **k):
         v = self.real(*a, **k)
         # a scalar draw or (after a refactor that draws several values at once) an array: recorded value by value, never a TypeError
-        self.vals.extend(int(x) for x in np.ravel(v))
+        drawn = [int(x) for x in np.ravel(v)]
+        self.vals.extend(drawn)
+        if not self.segments:
+            self.segments.append([])
+        self.segments[-1].extend(drawn)
         return v
+
+    def seed(self, *a, **k):
+        self.segments.append([])
+        return self.real_seed(*a, **k)
+
+
+class Draws(list):
+    """flat list of the recorded draws (what the model of the unrepaired function reads) + the per-call segments"""
+
+    segments = ()
+
+
+_REPAIRED = None
+
+
+def repaired():
+    """Is the implementation the repaired `is_lc_equivalent` (D14: linear system solved per connected component)?  Decided by
+    behaviour, once per process: two disjoint edges compared with themselves are LC-equivalent; the unrepaired code answers no.
+    The answer selects the model function the implementation is compared with (`isLcEquivalent` / `isLcEquivalentR`)."""
+    global _REPAIRED
+    if _REPAIRED is None:
+        from graphiq.backends import lc_equivalence_check as lce
+
+        k2k2 = np.array([[0, 1, 0, 0], [1, 0, 0, 0], [0, 0, 0, 1], [0, 0, 1, 0]])
+        try:
+            _REPAIRED = bool(lce.is_lc_equivalent(k2k2.copy(), k2k2.copy())[0])
+        except Exception:  # noqa: BLE001
+            _REPAIRED = False
+    return _REPAIRED
+
+
+def rep_tok():
+    return " repaired=1" if repaired() else ""
+
+
+def draws_tok(draws):
+    """draws in the protocol of the selected model: flat for the unrepaired function, one list per _random_checker call otherwise"""
+    if repaired():
+        segs = [seg for seg in getattr(draws, "segments", ())]
+        return "/".join("".join(map(str, seg)) or "-" for seg in segs) or "-"
+    return "".join(map(str, draws)) or "-"
 
 
 def impl_equiv(A, B, mode="deterministic", seed=0):
@@ -64,13 +127,18 @@ def impl_equiv(A, B, mode="deterministic", seed=0):
 
     rec = RandintRecorder()
     np.random.randint = rec
+    np.random.seed = rec.seed
+    draws = Draws()
     try:
         yes, Q = lce.is_lc_equivalent(np.array(A), np.array(B), mode=mode, seed=seed)
-        return "ok", bool(yes), (None if Q is None else np.asarray(Q).astype(int)), rec.vals
+        return "ok", bool(yes), (None if Q is None else np.asarray(Q).astype(int)), draws
     except Exception as e:  # noqa: BLE001
-        return "err", err_class(e), None, rec.vals
+        return "err", err_class(e), None, draws
     finally:
         np.random.randint = rec.real
+        np.random.seed = rec.real_seed
+        draws.extend(rec.vals)
+        draws.segments = [seg for seg in rec.segments if seg]
 
 
 def q_bits(Q):
@@ -185,6 +253,22 @@ def check_ops_table(res, drv):
 
 
 # ---------------------------------------------------------------------------------------------------- one pair, everything
+def components_ref(A):
+    """connected components by definition (label propagation to a fixed point), independent of graphiq and of the model"""
+    A = np.asarray(A)
+    n = len(A)
+    lab = list(range(n))
+    changed = True
+    while changed:
+        changed = False
+        for i in range(n):
+            for j in range(n):
+                if A[i, j] and lab[i] != lab[j]:
+                    lab[i] = lab[j] = min(lab[i], lab[j])
+                    changed = True
+    return sorted(sorted(i for i in range(n) if lab[i] == c) for c in set(lab))
+
+
 def system_lines(A, B):
     """implementation's intermediate quantities of is_lc_equivalent, in the model's format"""
     from graphiq.backends import lc_equivalence_check as lce
@@ -221,7 +305,7 @@ def check_pair(res, drv, orb, A, B, modes=("deterministic",), seed=0, deep=True,
         st, yes, Q, draws = impl_equiv(A, B, mode, seed)
         res.evaluations += 1
         res.count("sizes", f"n={n}" if n <= 6 else "n>6")
-        lines.append(f"lc.equiv {inp['a']} {inp['b']} mode={mode_tok(mode)} draws={''.join(map(str, draws)) or '-'}")
+        lines.append(f"lc.equiv {inp['a']} {inp['b']} mode={mode_tok(mode)} draws={draws_tok(draws)}{rep_tok()}")
         meta.append(("equiv", mode, (st, yes, Q, draws)))
         if st == "err":
             res.count("errors", f"equiv:{yes}")
@@ -267,7 +351,7 @@ def check_pair(res, drv, orb, A, B, modes=("deterministic",), seed=0, deep=True,
         except Exception as e:  # noqa: BLE001
             fseq, ferr = None, err_class(e)
         res.evaluations += 1
-        lines.append(f"lc.find {inp['a']} {inp['b']} mode=det fuel={FUEL}")
+        lines.append(f"lc.find {inp['a']} {inp['b']} mode=det fuel={FUEL}{rep_tok()}")
         meta.append(("find", None, (fseq, ferr)))
         if ferr is not None or not np.array_equal(gu.apply_seq_ref(A, fseq), np.asarray(B)):
             gu.viol(res, K_FIND_LC, "find_lc_operations must return a sequence of local complementations mapping the first graph to the second",
@@ -283,7 +367,7 @@ def check_pair(res, drv, orb, A, B, modes=("deterministic",), seed=0, deep=True,
         except Exception as e:  # noqa: BLE001
             ok, gates, cerr = None, None, err_class(e)
         res.evaluations += 1
-        lines.append(f"lc.check {inp['a']} {inp['b']} validate=1")
+        lines.append(f"lc.check {inp['a']} {inp['b']} validate=1{rep_tok()}")
         meta.append(("check", None, (ok, gates, cerr)))
         if cerr is not None:
             gu.viol(res, f"lc_check:raises:{cerr}", "lc_check raised on two graphs", input=inp)
@@ -340,13 +424,28 @@ def check_pair(res, drv, orb, A, B, modes=("deterministic",), seed=0, deep=True,
         if sysd is not None:
             lines.append(f"lc.system {inp['a']} {inp['b']}")
             meta.append(("system", None, sysd))
+        if repaired():
+            # `_connected_components` of the repaired code against the model and against the definition
+            for M in (A, B):
+                try:
+                    comps = [[int(v) for v in c] for c in lce._connected_components(np.array(M))]
+                    cerr3 = None
+                except Exception as e:  # noqa: BLE001
+                    comps, cerr3 = None, err_class(e)
+                res.evaluations += 1
+                lines.append(f"lc.components {gu.adj_args(M)}")
+                meta.append(("components", None, (comps, cerr3)))
+                if cerr3 is not None or comps != components_ref(M):
+                    gu.viol(res, "_connected_components:wrong-partition", "the vertex lists must be the connected components of the graph (sorted, ordered by smallest vertex)",
+                            input={"adj": gu.adj_args(M)}, impl=str(comps if cerr3 is None else f"err {cerr3}"))
     # ---- model side
     reps = drv.batch(lines)
     k = 0
     dim = None
     for kind, mode, data in meta:
         if kind == "false-no":
-            key = K_FALSE_NO_D14 if (dim is not None and dim >= 5) else "is_lc_equivalent:false-negative"
+            # after the repair of D14 no false no is known: every one is a new violation, whatever the dimension
+            key = K_FALSE_NO_D14 if (dim is not None and dim >= 5 and not repaired()) else "is_lc_equivalent:false-negative"
             gu.viol(res, key, "answered no for two graphs in the same LC orbit", input=inp, mode=mode, solution_dim=dim)
             continue
         rep = reps[k]
@@ -365,7 +464,8 @@ def check_pair(res, drv, orb, A, B, modes=("deterministic",), seed=0, deep=True,
             got = " ".join(rep["_raw"].split(" ")[:3 if yes else 2])
             if got != want:
                 res.exact_break("lc.equiv", input=inp, mode=mode, impl=want, model=rep["_raw"][:300])
-            elif mode == "random" and dim is not None and dim >= 5 and int(rep.get("trials", 0)) * dim != len(draws):
+            elif mode == "random" and dim is not None and dim >= 5 and (
+                    int(rep.get("used", -1)) if repaired() else int(rep.get("trials", 0)) * dim) != len(draws):
                 res.exact_break("lc.equiv:random-draw-count", input=inp, impl=f"{len(draws)} draws", model=rep["_raw"][:300])
             else:
                 res.traces_validated += 1
@@ -387,6 +487,13 @@ def check_pair(res, drv, orb, A, B, modes=("deterministic",), seed=0, deep=True,
             if rep["_status"] != "ok" or rep.get("same") != "1":
                 gu.viol(res, "lc_check:gates-do-not-map-state", "the returned single-qubit Clifford gates, run by the verified tableau semantics on the first graph state, must give exactly the second graph state",
                               input=inp, gates=gu.gates_str(data), model=rep["_raw"][:200])
+        elif kind == "components":
+            comps, cerr3 = data
+            want = f"err {cerr3}" if cerr3 is not None else "ok comps=" + (";".join(".".join(map(str, c)) for c in comps) or "-")
+            if rep["_raw"] != want:
+                res.exact_break("lc.components", input=inp, impl=want, model=rep["_raw"][:300])
+            else:
+                res.traces_validated += 1
         elif kind == "system":
             for f in ("coeff", "red", "last", "cols", "basis"):
                 if f in data and rep.get(f) != data[f]:
@@ -445,9 +552,9 @@ def check_tableau_pair(res, drv, t1, t2, same, inp, target=None):
             from graphiq.backends.state_rep_conversion import state_to_graph
 
             g1, g2 = gu.to_adj(state_to_graph(t1)[0]), gu.to_adj(state_to_graph(t2)[0])
-            rep = drv.ask(f"lc.equiv {gu.adj_args(g1)} {gu.adj_args(g2, 'b', with_n=False)} mode=det")
+            rep = drv.ask(f"lc.equiv {gu.adj_args(g1)} {gu.adj_args(g2, 'b', with_n=False)} mode=det{rep_tok()}")
             dim = int(rep.get("dim", 0)) if rep["_status"] == "ok" else 0
-            key = K_FALSE_NO_D14 if dim >= 5 else "lc_check:tableau:false-no"
+            key = K_FALSE_NO_D14 if (dim >= 5 and not repaired()) else "lc_check:tableau:false-no"
             gu.viol(res, key, "lc_check answered no for two LC-equivalent stabilizer states", input=inp, solution_dim=dim,
                     graphs=[gu.adj_args(g1), gu.adj_args(g2)])
             return "false-no:dim>=5" if dim >= 5 else "false-no"
@@ -652,19 +759,28 @@ def malformed(res, drv, rng):
 
     cases = [(gu.complete_graph(3), gu.path_graph(4), "deterministic"), (gu.path_graph(2), gu.path_graph(3), "random")]
     k2 = gu.complete_graph(2)
+    # the mode is only read when a solution space of dimension >= 5 is met: on the whole of 2K2 (dimension 8) before the repair of
+    # D14, on no component of it (dimension 4 each) after; on K4 (dimension 5) in both
     cases.append((gu.disjoint_union(k2, k2), gu.disjoint_union(k2, k2), "foo"))
+    cases.append((gu.complete_graph(4), gu.complete_graph(4), "foo"))
     lines, meta = [], []
     for A, B, mode in cases:
         st, yes, Q, draws = impl_equiv(A, B, mode, 0)
         res.evaluations += 1
         res.count("errors", f"malformed:{yes if st == 'err' else 'ok'}")
-        lines.append(f"lc.equiv n={len(A)} a={gu.bits(A)} b={gu.bits(B)} mode={mode_tok(mode)}")
-        meta.append((st, yes))
-    # different sizes cannot be expressed with one `n` in the protocol: only the mode case goes to the driver
-    rep = drv.ask(lines[2])
-    if meta[2][0] != "err" or rep["_status"] != "err" or rep.get("_err") != meta[2][1]:
-        res.exact_break("lc.equiv:bad-mode", impl=str(meta[2]), model=rep["_raw"][:100])
-    for (st, yes) in meta[:2]:
+        lines.append(f"lc.equiv n={len(A)} a={gu.bits(A)} b={gu.bits(B)} mode={mode_tok(mode)}{rep_tok()}")
+        meta.append((st, yes, Q))
+    # different sizes cannot be expressed with one `n` in the protocol: only the mode cases go to the driver
+    for k in (2, 3):
+        rep = drv.ask(lines[k])
+        st, yes, Q = meta[k]
+        want = f"err {yes}" if st == "err" else (f"ok yes q={q_bits(Q)}" if yes else "ok no")
+        got = rep["_raw"] if rep["_status"] == "err" else " ".join(rep["_raw"].split(" ")[:3 if rep["_raw"].startswith("ok yes") else 2])
+        if got != want:
+            res.exact_break("lc.equiv:bad-mode", impl=want, model=rep["_raw"][:100])
+    if meta[3][0] != "err" or meta[3][1] != "value":
+        res.exact_break("lc.equiv:bad-mode:K4", impl=str(meta[3][:2]), model="err value")
+    for (st, yes, _) in meta[:2]:
         if st != "err" or yes != "assertion":
             res.exact_break("lc.equiv:size-mismatch", impl=str((st, yes)), model="err assertion")
 
